@@ -401,7 +401,7 @@ func checkC12(c *Check) {
 		tags := redisTags(stStruct)
 		for _, b := range getSt.Blocks {
 			for _, ins := range b.Instrs {
-				if bo, ok := ins.(*ssa.BinOp); ok && bo.Op == token.EQL {
+				if bo, ok := ins.(*ssa.BinOp); ok && (bo.Op == token.EQL || bo.Op == token.NEQ) && flowsToBranch(bo) {
 					if s, isC := constString(bo.Y); isC && s == "" {
 						if _, f, okf := fieldLoad(resolveCell(stripConv(bo.X))); okf && f != nil {
 							if t, has := tags[f.Name()]; has {
@@ -680,4 +680,32 @@ func posFn(P *Program, fn *ssa.Function) string {
 		return "-"
 	}
 	return P.Pos(fn.Pos())
+}
+
+// flowsToBranch: the boolean v decides a branch, directly or through negation / short-circuit merges.
+func flowsToBranch(v ssa.Value) bool {
+	seen := map[ssa.Value]bool{}
+	var walk func(x ssa.Value) bool
+	walk = func(x ssa.Value) bool {
+		if seen[x] || x.Referrers() == nil {
+			return false
+		}
+		seen[x] = true
+		for _, r := range *x.Referrers() {
+			switch r := r.(type) {
+			case *ssa.If:
+				return true
+			case *ssa.UnOp:
+				if r.Op == token.NOT && walk(r) {
+					return true
+				}
+			case *ssa.Phi:
+				if walk(r) {
+					return true
+				}
+			}
+		}
+		return false
+	}
+	return walk(v)
 }
